@@ -1,5 +1,5 @@
 (* nvref_c03: line protocol over S-expressions produced by tools/progen.py + tools/props/shadowlib.py
-     interp <fuel> <sprog>           -> done tests=<f>:<p|f>:<nfail>:<asserts 0/1 string>:<out-hex>;... skipped=<f,..> | sigfpe | unmodelled | nofuel
+     interp <fuel> <sprog>           -> done tests=<f>:<p|f>:<nfail>:<asserts 0/1 string>:<out-hex>;... skipped=<f,..> | sigfpe | unmodelled | nofuel | oob <f|-> <out-hex>
                                         (Back/InterpSem + Driver/ShadowGate.run_interp, base = no leftover symbols)
      nanoc <fuel> <front> <later> <sprog> -> exit <code> <binary 0|1> failed=<f>:<n>,... warn=<f,..> | killed | unmodelled | hang
      reft <fuel> <sprog>             -> tests=<f>:<ok|assert|div|stuck|nofuel>:<out-hex>;...  | globals-failed     (Lang/Ref per shadow block)
@@ -27,7 +27,7 @@ let parse_sx (s : ostring) : sx =
     end in
   one ()
 
-let ty_of = function "int" -> TInt | "bool" -> TBool | "void" -> TVoid | "str" -> TStr | t -> failwith ("ty " ^ t)
+let ty_of = function "int" -> TInt | "bool" -> TBool | "void" -> TVoid | "str" -> TStr | "arr" -> TArr | t -> failwith ("ty " ^ t)
 let binop_of : ostring -> binop = function
   | "add" -> BAdd | "sub" -> BSub | "mul" -> BMul | "div" -> BDiv | "mod" -> BMod | "eq" -> BEq | "ne" -> BNe
   | "lt" -> BLt | "le" -> BLe | "gt" -> BGt | "ge" -> BGe | "and" -> BAnd | "or" -> BOr | o -> failwith ("binop " ^ o)
@@ -42,6 +42,9 @@ let rec expr_of (x : sx) : expr =
   | L [A "bin"; A o; a; b] -> EBin (binop_of o, expr_of a, expr_of b)
   | L (A "call" :: A f :: args) -> ECall (n_of_hex f, List.map expr_of args)
   | L [A "cond"; c; a; b] -> ECond (expr_of c, expr_of a, expr_of b)
+  | L (A "arr" :: es) -> EArr (List.map expr_of es)
+  | L [A "at"; a; i] -> EAt (expr_of a, expr_of i)
+  | L [A "len"; a] -> ELen (expr_of a)
   | _ -> failwith "expr"
 let rec stmt_of (x : sx) : stmt =
   match x with
@@ -88,6 +91,7 @@ let show_test (t : test_result) =
 let show_run = function
   | TDone (rs, sk, _) -> "done tests=" ^ String.concat ";" (List.map show_test rs) ^ " skipped=" ^ names sk
   | TSigfpe -> "sigfpe" | TUnmodelled -> "unmodelled" | TNoFuel -> "nofuel"
+  | TOob (f, out) -> "oob " ^ (match f with Some n -> hex_of_n n | None -> "-") ^ " " ^ hex_of_bytes out
 let show_nanoc = function
   | NExit (c, b, rep, w) ->
       let failed = List.filter_map (function RFailed (f, n) -> Some (hex_of_n f ^ ":" ^ string_of_int (int_of_nat n)) | _ -> None) rep in
@@ -98,6 +102,7 @@ let show_ref (f, r) =
   hex_of_n f ^ ":" ^ (match r with
     | Ok (_, out) -> "ok:" ^ hex_of_bytes out
     | Fault (FAssert, out) -> "assert:" ^ hex_of_bytes out
+    | Fault (FOob, out) -> "oob:" ^ hex_of_bytes out
     | Fault (_, out) -> "div:" ^ hex_of_bytes out
     | Stuck -> "stuck:-" | NoFuel -> "nofuel:-")
 
